@@ -4,6 +4,7 @@ contexts yielded by accumulators) to the real lena objects.
 Pure values of the specs are JSON: {"d": [ints], "c": context}; the empty context arrives as [].
 """
 import copy
+import json
 import random
 
 from .util import exc_name, reach_ids
@@ -23,7 +24,26 @@ def flow_value(j):
     return ([j], c)
 
 
-class IncEl(object):
+class _Structural(object):
+    """Harness elements compare structurally, as the lena elements do (Sum, Count, UpdateContext, Run, the
+    sequences): two branches built from equal elements are == although they are distinct objects."""
+    _ignore = ()
+
+    def __eq__(self, other):
+        if type(other) is not type(self):
+            return NotImplemented
+        mine = {k: v for k, v in vars(self).items() if k not in self._ignore}
+        theirs = {k: v for k, v in vars(other).items() if k not in self._ignore}
+        return mine == theirs
+
+    def __ne__(self, other):
+        r = self.__eq__(other)
+        return r if r is NotImplemented else not r
+
+    __hash__ = None
+
+
+class IncEl(_Structural):
     """user element: context[key] += 1 in place"""
 
     def __init__(self, key):
@@ -35,7 +55,7 @@ class IncEl(object):
         return value
 
 
-class AppEl(object):
+class AppEl(_Structural):
     """user element: data.append(x) in place"""
 
     def __init__(self, x):
@@ -46,7 +66,9 @@ class AppEl(object):
         return value
 
 
-class Tag(object):
+class Tag(_Structural):
+    _ignore = ("b",)       # the branch number is bookkeeping of the harness, not part of the element
+
     def __init__(self, b):
         self.b = b
 
@@ -54,7 +76,7 @@ class Tag(object):
         return ("B", self.b, value)
 
 
-class Collector(object):
+class Collector(_Structural):
     """fill/compute element keeping the values themselves; LenaStopFill on attempt stop+1"""
 
     def __init__(self, stop=None):
@@ -71,8 +93,9 @@ class Collector(object):
             yield v
 
 
-class FRBranch(object):
+class FRBranch(_Structural):
     """fill/request element: applies the mutators in place, keeps the values, yields them on request"""
+    _ignore = ("b",)
 
     def __init__(self, els, b):
         self.els, self.b, self.stored = els, b, []
@@ -91,7 +114,9 @@ class FRBranch(object):
         self.stored = []
 
 
-class SrcEl(object):
+class SrcEl(_Structural):
+    _ignore = ("b",)
+
     def __init__(self, b):
         self.b = b
 
@@ -100,7 +125,14 @@ class SrcEl(object):
         yield ("B", self.b, ([-2], {}))
 
 
-def build_mut(mu):
+def build_mut(mu, shared=None):
+    """shared: a dict; stateless elements are then built once and the same object is used in every branch
+    (Variable and MakeFilename compare by identity, so only a shared instance makes two branches equal)"""
+    if shared is not None and mu["t"] != "cnt":
+        key = json.dumps(mu, sort_keys=True)
+        if key not in shared:
+            shared[key] = build_mut(mu)
+        return shared[key]
     import lena.context
     import lena.output
     import lena.variables
@@ -125,13 +157,16 @@ def build_mut(mu):
     raise ValueError(mu)
 
 
-def build_branch(b, br):
+def build_branch(b, br, shared=None):
     import lena.core
     import lena.flow
-    els = [build_mut(mu) for mu in br["muts"]]
+    els = [build_mut(mu, shared) for mu in br["muts"]]
     end = br["end"]
     stop = None if br["stop"] == NONE else br["stop"]
     if end == "seq":
+        if shared is not None and len(els) > 1:
+            # the same branch written with a nested Sequence
+            return lena.core.Sequence(lena.core.Sequence(*els[:1]), *(els[1:] + [Tag(b)]))
         return lena.core.Sequence(*(els + [Tag(b)]))
     if end == "store":
         return lena.core.FillComputeSeq(*(els + [Collector(stop), Tag(b)]))
@@ -154,12 +189,13 @@ def norm_pure(x):
     return {"d": x["d"], "c": {} if x["c"] == [] else x["c"]}
 
 
-def run_scenario(brs, n, bs, drv, rq, copy_buf=True):
+def run_scenario(brs, n, bs, drv, rq, copy_buf=True, share=False):
     """Execute one scenario on the real Split / Zip.  Returns per-branch lists (1-based dict) of
-    (snapshot when yielded, the yielded object) plus the source values."""
+    (snapshot when yielded, the yielded object) plus the source values (as the caller holds them afterwards)."""
     import lena.core
     import lena.flow
-    branches = [build_branch(b + 1, br) for b, br in enumerate(brs)]
+    shared = {} if share else None
+    branches = [build_branch(b + 1, br, shared) for b, br in enumerate(brs)]
     values = [flow_value(j + 1) for j in range(n)]
     outs = []          # (b, snapshot at yield, object)
 
@@ -247,8 +283,24 @@ def rand_branch(rnd, ends):
     return {"muts": muts, "end": end, "stop": stop, "name": rnd.choice(["c1", "c2"]) if end == "count" else ""}
 
 
+def with_repeats(rnd, brs):
+    """Some branches occur twice or three times (equal but distinct) at random positions."""
+    if brs and rnd.random() < 0.5:
+        for _ in range(rnd.randint(1, 2)):
+            src = copy.deepcopy(rnd.choice(brs))
+            pos = rnd.choice([0, len(brs) // 2, len(brs)])
+            brs.insert(pos, src)
+    return brs[:6]
+
+
 def rand_scenario(rnd):
-    drv = rnd.choice(["run", "run", "run", "fill", "fillreq", "zip"])
+    sc = _rand_scenario(rnd)
+    sc["brs"] = with_repeats(rnd, sc["brs"])
+    return sc
+
+
+def _rand_scenario(rnd):
+    drv = rnd.choice(["run", "run", "run", "fill", "fill", "fillreq", "zip"])
     nb = rnd.randint(1, 5)
     if drv == "run":
         brs = [rand_branch(rnd, ["seq", "seq", "store", "count", "fr", "src"]) for _ in range(nb)]
